@@ -162,6 +162,25 @@ Theorem C13i_point_max_at_nearest_node : forall nx ny xmx ymx xs ys j0 i0, (0 < 
   ideal_cell "point" nx ny xmx ymx xs ys j i <= ideal_cell "point" nx ny xmx ymx xs ys j0 i0.
 Proof. exact point_max_at_nearest. Qed.
 
+(* the field as the SOLVER sees it (column i of the flux array at i*dx): the offset of node i to the location xs is the offset
+   of solver cell i to xs*(nx-1)/nx, stretched by nx/(nx-1).  So a location given in metres appears displaced towards the
+   origin by xs/nx (less than one dx inside the domain) and every length shrunk by (nx-1)/nx; the default location appears at
+   the midpoint between the solver's first and last cell *)
+Theorem C13i_seen_from_solver_grid : forall nx xmx xs i, (2 <= nx)%nat ->
+  ideal_x nx xmx i - xs = (solver_x nx xmx i - xs * ((INR nx - 1) / INR nx)) * (INR nx / (INR nx - 1)) /\
+  xs - xs * ((INR nx - 1) / INR nx) = xs / INR nx /\
+  fst (ideal_loc xmx 0 None) * ((INR nx - 1) / INR nx) = (solver_x nx xmx 0 + solver_x nx xmx (nx - 1)) / 2.
+Proof.
+  exact (fun nx xmx xs i H => conj (offset_on_solver_grid nx xmx xs i H)
+          (conj (given_loc_displacement nx xs (Nat.le_trans 1 2 nx (le_S 1 1 (le_n 1)) H)) (default_loc_on_solver_grid nx xmx H))).
+Qed.
+
+(* the normalisation is that of a ONE-dimensional Gaussian: peak * sigma * sqrt(2 pi) = 1 (the field is not a unit source
+   of the plane: its integral is sigma sqrt(2 pi)) *)
+Theorem C13i_point_peak_normalisation : forall nx xmx xs ys, (0 < nx)%nat -> 0 < xmx ->
+  ideal_point nx xmx xs ys xs ys * (ideal_sigma nx xmx * sqrt (2 * PI)) = 1.
+Proof. exact point_peak_normalisation. Qed.
+
 (* common scaling of all lengths by c > 0: the indicator shapes (and the zeros) do not change; the Gaussian scales by 1/c *)
 Theorem C13i_scaling : forall shape nx ny c xmx ymx loc j i, 0 < c ->
   (shape <> "point"%string ->
@@ -225,3 +244,5 @@ Goal True. idtac "THEOREM C13i_point_positive_decreasing". Abort. Print Assumpti
 Goal True. idtac "THEOREM C13i_point_max_at_nearest_node". Abort. Print Assumptions C13i_point_max_at_nearest_node.
 Goal True. idtac "THEOREM C13i_scaling". Abort. Print Assumptions C13i_scaling.
 Goal True. idtac "THEOREM C13i_exec_sound". Abort. Print Assumptions C13i_exec_sound.
+Goal True. idtac "THEOREM C13i_seen_from_solver_grid". Abort. Print Assumptions C13i_seen_from_solver_grid.
+Goal True. idtac "THEOREM C13i_point_peak_normalisation". Abort. Print Assumptions C13i_point_peak_normalisation.
